@@ -19,7 +19,7 @@ from ..core import LEAN, Infra, Prop, Violation, import_repo, show_bool, show_ra
 LEVELS = ["none", "suspicious", "confirmed", "critical"]
 ACTIONS = ["ignore", "monitor", "isolate", "shutdown", "alert"]
 LADDER = ["ignore", "monitor", "isolate", "shutdown"]
-CONDS = ["T", "F", "S", "C", "N", "A", "K0", "K2", "K5", "V1", "V2", "V3", "X"]
+CONDS = ["T", "F", "S", "C", "N", "A", "U", "K0", "K2", "K5", "V1", "V2", "V3", "X"]
 EPS = F(1, 10 ** 9)
 
 
@@ -137,6 +137,7 @@ class C17(Prop):
         "p:untrained", "p:nopeptide", "p:recalled", "p:recall-blocked-anergic", "p:recall-blocked-inside", "p:tcell",
         "p:none", "p:suspicious", "p:confirmed", "p:critical", "p:anergic", "p:s2-cross", "p:stored",
         "p:stored-pruned", "p:cond-raised", "d:peptide", "d:short", "d:evicted", "d:canary",
+        "m:pruned-old", "m:prune-kept", "m:imported", "m:import-full", "m:reimport", "m:roundtrip",
     ]
     assumptions = [
         "fingerprint hashes are compared as opaque values (md5 prefixes treated as injective on the strings explored)",
@@ -146,8 +147,11 @@ class C17(Prop):
         "rule conditions return (truthy/falsy) or raise; they do not call back into the immune system",
         "MHCDisplay is modelled up to its text analysis: regex word extraction, json parsing and md5 are environment (an "
         "observation arrives with its length, word ids and structure id; the harness checks each line against the string "
-        "it renders); an empty window with min_observations <= 0 (ZeroDivisionError) is not configured; memory "
-        "import/export/prune_old, similarity(), recent_update are not modelled",
+        "it renders); an empty window with min_observations <= 0 (ZeroDivisionError) is not configured; similarity() "
+        "and health() are not modelled",
+        "imported signatures are well formed (CONFIRMED/CRITICAL, CRITICAL with SHUTDOWN, action at most one rung below "
+        "the level's): what every export contains (proved); import_signatures itself does not validate its input",
+        "time is a logical clock: one microsecond per stamp, two-hour jumps; ages are whole hours",
     ]
     trusted_modelled = ["modelled, not verified: operon_ai/surveillance tcell/treg/thymus/memory/immune_system as "
                         "Operon.Immune (Model/Immune.lean); decision tables regenerated by extractor E4"]
@@ -181,8 +185,18 @@ class C17(Prop):
             @classmethod
             def now(cls, tz=None):
                 return now()
-        MEM.datetime = TickDT            # touch() stamps
+        MEM.datetime = TickDT            # touch() stamps, prune_old cut-off
+        TR.datetime = TickDT             # mark_updated / recent_update
         real_sig = MEM.ThreatSignature
+        self.peek = lambda: _dt.datetime(2026, 1, 1) + _dt.timedelta(microseconds=prop.tick)
+
+        class StampedSig(real_sig):      # import_signatures: last_accessed = time of the import (fake clock)
+            @classmethod
+            def from_dict(cls, data):
+                sg = real_sig.from_dict.__func__(cls, data)
+                sg.last_accessed = now()
+                return sg
+        MEM.ThreatSignature = StampedSig
 
         def mk_sig(*a, **kw):            # creation stamps (the dataclass captured the real utcnow)
             kw.setdefault("created_at", now())
@@ -291,6 +305,8 @@ class C17(Prop):
                 return resp.threat_level == T.ThreatLevel.NONE
             if c == "A":
                 return resp.is_anergic
+            if c == "U":
+                return rec.recent_update
             if c.startswith("K"):
                 return rec.clean_inspections >= int(c[1:])
             if c.startswith("V"):
@@ -366,11 +382,13 @@ class C17(Prop):
                 elif op == "treg" and len(t) >= 2:
                     st["treg"] = TR.RegulatoryTCell(rules=self.mk_rules(t[2:]), stability_threshold=int(t[1]))
                     o = "ok"
-                elif op == "evaluate" and len(t) == 6:
+                elif op == "evaluate" and len(t) == 7:
                     resp = TC.ImmuneResponse(agent_id="a", threat_level=self.LV_R[t[1]], action=self.AC_R[t[2]],
                                              signal1=T.Signal1.NON_SELF, signal2=T.Signal2.NONE,
                                              violations=["error_rate too high"] * int(t[4]), is_anergic=t[5] == "1")
                     rec = TR.ToleranceRecord(agent_id="a", clean_inspections=int(t[3]), total_inspections=int(t[3]))
+                    if t[6] == "1":
+                        rec.mark_updated()
                     ex = {"kind": "evaluate", "level": t[1], "action": t[2]}
                     try:
                         s = st["treg"].evaluate(resp, rec)
@@ -510,6 +528,36 @@ class C17(Prop):
                 elif op == "unrec" and len(t) == 2:
                     ims().treg.records.pop(f"a{int(t[1])}", None)
                     o = "ok"
+                elif op == "updated" and len(t) == 2:
+                    ims().mark_agent_updated(f"a{int(t[1])}")
+                    o = "ok"
+                elif op == "expire" and len(t) == 1:
+                    self.tick += 7_200_000_000
+                    o = "ok"
+                elif op == "pruneold" and len(t) == 2:
+                    ims().memory.prune_old(_dt.timedelta(hours=int(t[1])))
+                    o = f"ok mem={len(ims().memory.signatures)}"
+                elif op == "import":
+                    data = []
+                    for it in t[1:]:
+                        f_ = it.split(":")
+                        if len(f_) != 6:
+                            continue
+                        data.append({"agent_id": f"a{int(f_[0])}", "vocabulary_hash": f"v{int(f_[1])}",
+                                     "structure_hash": f"s{int(f_[2])}", "violation_types": ["imported"],
+                                     "threat_level": self.LV_R[f_[3]].value, "effective_response": self.AC_R[f_[4]].value,
+                                     "created_at": (self.peek() - _dt.timedelta(hours=int(f_[5]))).isoformat(),
+                                     "recall_count": 0})
+                    ims().memory.import_signatures(data)
+                    o = f"ok mem={len(ims().memory.signatures)}"
+                elif op == "roundtrip" and len(t) == 1:
+                    data = ims().memory.export_signatures()
+                    ims().memory.prune_old(_dt.timedelta(0))
+                    ims().memory.import_signatures(data)
+                    o = f"ok mem={len(ims().memory.signatures)}"
+                elif op == "reimport" and len(t) == 1:
+                    ims().memory.import_signatures(ims().memory.export_signatures())
+                    o = f"ok mem={len(ims().memory.signatures)}"
                 else:
                     o = "bad-op"
             except (KeyError, ValueError, ZeroDivisionError, IndexError) as e:   # malformed line
@@ -584,6 +632,11 @@ class C17(Prop):
                     streak[a] = 0
             elif op == "preset" or op == "presetfa":
                 streak[int(t[1])] = 0
+            elif op == "import":
+                for it in t[1:]:
+                    f_ = it.split(":")
+                    if len(f_) == 6:
+                        remembered.add((int(f_[0]), int(f_[1]), int(f_[2])))
             elif op == "pinspect" and ex:
                 a = ex["agent"]
                 p, pr = ex["fp"], ex["profile"]
@@ -747,7 +800,8 @@ class C17(Prop):
             lv = rng.choice(LEVELS)
             ac = rng.choice(ACTIONS) if rng.random() < 0.3 else {"none": "ignore", "suspicious": "monitor",
                                                                   "confirmed": "isolate", "critical": "shutdown"}[lv]
-            lines.append(f"evaluate {lv} {ac} {rng.choice([0, 1, 2, 5, 100])} {rng.choice([0, 1, 2, 3])} {rng.choice([0, 0, 1])}")
+            lines.append(f"evaluate {lv} {ac} {rng.choice([0, 1, 2, 5, 100])} {rng.choice([0, 1, 2, 3])} {rng.choice([0, 0, 1])} "
+                         f"{rng.choice([0, 0, 1])}")
         return {"lines": lines, "note": "treg"}
 
     # -- exact (Fraction) view of training, used ONLY to place probes and to keep clear of float boundaries -------
@@ -942,9 +996,34 @@ class C17(Prop):
                 lines.append(f"reg {a}")
             elif x < 0.96:
                 lines.append(f"unrec {a}")
-            else:
+            elif x < 0.975:
                 lines.append(f"pinspect {rng.choice([0, 1, 2, 3])}")
+            else:
+                lines.append(self.memory_op(rng, agents, base))
         return {"lines": lines, "note": "pipeline"}
+
+    GOOD_PAIRS = ["confirmed:isolate", "confirmed:monitor", "critical:shutdown"]
+
+    def memory_op(self, rng, agents, base):
+        """update marks, expiry, pruning by age, export/import — imports are well formed (what an export contains)"""
+        x = rng.random()
+        if x < 0.25:
+            return f"updated {rng.choice(agents)}"
+        if x < 0.40:
+            return "expire"
+        if x < 0.60:
+            return f"pruneold {rng.choice([0, 1, 2, 3, 4, 100])}"
+        if x < 0.66:
+            return "reimport"
+        if x < 0.76:
+            return "roundtrip"
+        items = []
+        for _ in range(rng.choice([1, 1, 2, 3])):
+            a = rng.choice(agents)
+            b = base.get(a)
+            v, sh = (b[6], b[7]) if (b is not None and rng.random() < 0.7) else (rng.choice([1, 2, 5]), rng.choice([1, 2]))
+            items.append(f"{a}:{v}:{sh}:{rng.choice(self.GOOD_PAIRS)}:{rng.choice([0, 0, 1, 2, 3])}")
+        return "import " + " ".join(items)
 
     def case_pipeline_anergy(self, rng):
         """desensitise the watcher of an agent whose threat is (optionally) already remembered, then show the threat"""
@@ -1098,7 +1177,7 @@ class C17(Prop):
         """repeat inspections with identical hashes under an active suppressing rule: the threat is lowered when it is
         first reported and stored; recalled answers must not be lowered again"""
         sev = rng.choice(["confirmed", "confirmed", "critical", "suspicious"])
-        cond = rng.choice(["T", "T", "C", "V1", "K0"])
+        cond = rng.choice(["T", "T", "C", "V1", "K0", "U", "U", "U"])
         extra = [f"{rng.choice(LEVELS)}:{rng.choice(CONDS[:-1])}" for _ in range(rng.choice([0, 0, 1]))]
         rules = [f"{sev}:{cond}"] + extra
         rng.shuffle(rules)
@@ -1107,6 +1186,8 @@ class C17(Prop):
         a = rng.choice([0, 1])
         base = self.grid_fp(rng)[:9] + (rng.choice([None, None, F(1)]),)
         lines += [f"reg {a}", f"show {a} " + " ".join(fp_tokens(base)), f"train {a}"]
+        if cond == "U" or rng.random() < 0.3:
+            lines.append(f"updated {a}")
         kind = rng.choice(["one", "one", "many"])
         threat = list(base)
         threat[2] = base[2] + F(8)
@@ -1119,15 +1200,17 @@ class C17(Prop):
         lines.append(f"show {a} " + " ".join(fp_tokens(threat)))
         for _ in range(rng.choice([4, 5, 7])):
             lines.append(f"pinspect {a}")
-            if rng.random() < 0.15:
-                lines.append(rng.choice([f"pflag {a} 1", f"preset {a}", f"show {a} " + " ".join(fp_tokens(threat))]))
+            if rng.random() < 0.3:
+                lines.append(rng.choice([f"pflag {a} 1", f"preset {a}", f"show {a} " + " ".join(fp_tokens(threat)),
+                                         "expire", f"updated {a}", f"pruneold {rng.choice([0, 1, 3])}", "reimport", "roundtrip", "roundtrip",
+                                         f"import {a}:{threat[6]}:{threat[7]}:{rng.choice(self.GOOD_PAIRS)}:{rng.choice([0, 1, 3])}"]))
         if rng.random() < 0.5:
             lines += [f"show {a} " + " ".join(fp_tokens(base)), f"pinspect {a}",
                       f"show {a} " + " ".join(fp_tokens(threat)), f"pinspect {a}", f"pinspect {a}"]
         return {"lines": lines, "note": "pipeline repeat inspections under an active rule"}
 
     def case_malformed(self, rng):
-        junk = ["", "inspect", "inspect 1 2 3", "tcell 3 5", "evaluate none", "pinspect", "show 0", "train", "frobnicate 1",
+        junk = ["", "inspect", "inspect 1 2 3", "tcell 3 5", "evaluate none", "expire 1", "pruneold", "updated", "reimport 1", "pinspect", "show 0", "train", "frobnicate 1",
                 "ttrain 0 0 0", "treset", "flag 1", "check 1 2 3 4 5 6 7 8 9 none", "sample 1 2"]
         lines = [rng.choice(junk) for _ in range(rng.choice([1, 2, 4]))]
         return {"lines": lines, "note": "malformed"}
@@ -1161,10 +1244,10 @@ class C17(Prop):
         # 1. Treg.evaluate over every (level, action, clean below/at threshold) x every single rule (max severity x
         #    condition) and no rule
         cases = []
-        for sev, cond in [(None, None)] + list(itertools.product(LEVELS, ["T", "F", "S", "C", "X", "K2"])):
+        for sev, cond in [(None, None)] + list(itertools.product(LEVELS, ["T", "F", "S", "C", "X", "K2", "U"])):
             lines = ["treg 2" + ("" if sev is None else f" {sev}:{cond}")]
             for lv, ac, clean in itertools.product(LEVELS, ACTIONS, (1, 2)):
-                lines.append(f"evaluate {lv} {ac} {clean} 1 0")
+                lines.append(f"evaluate {lv} {ac} {clean} 1 0 {1 if (cond == 'U' and clean == 2) else 0}")
             cases.append({"lines": lines, "note": "exhaustive treg"})
         spaces = [{"name": "Treg.evaluate: all levels x actions x stable/unstable x (no rule | one rule of every max "
                            "severity x 6 conditions)", "cases": cases}]
